@@ -91,6 +91,7 @@ def ensure(config='default', verbose=True):
         out = os.path.join(BUILD, 'facts', h, config)
         done = os.path.join(out, 'DONE')
         if os.path.exists(done):
+            os.utime(os.path.dirname(out), None)
             return out
         t0 = time.time()
         if os.path.isdir(out):
@@ -119,7 +120,7 @@ def ensure(config='default', verbose=True):
             f.write(json.dumps({'hash': h, 'config': config, 'wall_s': round(time.time() - t0, 2)}))
         # keep the cache small: drop fact sets of other trees older than the newest four
         roots = sorted(glob.glob(os.path.join(BUILD, 'facts', '*')), key=os.path.getmtime)
-        for old in roots[:-4]:
+        for old in roots[:-8]:
             if os.path.basename(old) != h:
                 shutil.rmtree(old, ignore_errors=True)
         if verbose:
